@@ -298,6 +298,48 @@ pub fn dedicated_inputs() -> Vec<(&'static str, Mods, usize)> {
         ],
         8,
     ));
+    // the same short name reachable through two scope entries, used by an extern value,
+    // a field, a signature: the binding must not depend on which module was added first
+    out.push((
+        "same-name-in-two-modules",
+        vec![
+            (ItemPath::from("kd_eng"), Module::new().with_definitions([ItemDefinition::new((Visibility::Public, "Handle"), TypeDefinition::new([TypeStatement::field((Visibility::Public, "a"), Type::ident("u64"))]))])),
+            (
+                ItemPath::from("kd_game"),
+                Module::new()
+                    .with_uses([ItemPath::from("kd_eng")])
+                    .with_definitions([
+                        ItemDefinition::new((Visibility::Public, "Handle"), TypeDefinition::new([TypeStatement::field((Visibility::Public, "b"), Type::ident("u32"))])),
+                        ItemDefinition::new((Visibility::Public, "User"), TypeDefinition::new([TypeStatement::field((Visibility::Public, "h"), Type::ident("Handle").const_pointer())])),
+                    ])
+                    .with_impls([FunctionBlock::new("User", [Function::new((Visibility::Public, "f"), [Argument::ConstSelf, Argument::named("h", Type::ident("Handle").mut_pointer())]).with_attributes([Attribute::address(0x1000_0000)])])])
+                    .with_extern_values([ExternValue::new(Visibility::Public, "g_player", Type::ident("Handle").mut_pointer(), [Attribute::address(0x6000_0000)])]),
+            ),
+            (ItemPath::from("kd_zzz"), Module::new().with_uses([ItemPath::from("kd_game"), ItemPath::from("kd_eng")]).with_extern_values([ExternValue::new(Visibility::Public, "g_other", Type::ident("Handle").const_pointer(), [Attribute::address(0x6000_0040)])])),
+        ],
+        8,
+    ));
+    // two functions in one impl block, the first names a generated vftable struct
+    out.push((
+        "reference-to-generated-vftable-then-more",
+        vec![(
+            ItemPath::from("kd_q"),
+            Module::new()
+                .with_definitions([
+                    ItemDefinition::new((Visibility::Public, "A"), TypeDefinition::new([TypeStatement::field((Visibility::Public, "x"), w())])),
+                    ItemDefinition::new((Visibility::Public, "B"), TypeDefinition::new([vt("v")])),
+                ])
+                .with_impls([FunctionBlock::new(
+                    "A",
+                    [
+                        Function::new((Visibility::Public, "f"), [Argument::ConstSelf, Argument::named("p", Type::ident("BVftable").const_pointer())]).with_attributes([Attribute::address(0x1000_0000)]),
+                        Function::new((Visibility::Public, "g"), [Argument::ConstSelf]).with_attributes([Attribute::address(0x1000_0040)]).with_return_type(Type::ident("BVftable").const_pointer()),
+                        Function::new((Visibility::Public, "h"), [Argument::ConstSelf]).with_attributes([Attribute::address(0x1000_0080)]),
+                    ],
+                )]),
+        )],
+        8,
+    ));
     // user type named like a generated vftable struct, duplicates: consistently rejected
     out.push((
         "user-type-named-like-vftable",
